@@ -15,6 +15,5 @@ from harness import core
 core.ensure_makefile()
 PY
 cd coq
-timeout 3000 make -j16 --no-print-directory 2>&1 | grep -v "^Closed under\|^COQDEP\|^COQC" | tail -40
-test "${PIPESTATUS[0]}" = 0
-echo "setup ok"
+timeout 3000 make -j16 -k --no-print-directory "TIMECMD=timeout 900" 2>&1 | grep -v "^Closed under\|^COQDEP\|^COQC" | tail -40
+if [ "${PIPESTATUS[0]}" = 0 ]; then echo "setup ok"; else echo "setup: some Coq files did not build; the checks that need them will report proof-broken"; fi
